@@ -3,8 +3,9 @@ CONSTANTS
     GoodRates = {"0.3", "0.7"}
     BadRates = {}
     Sids = {"s1", "s2"}
-    Rids = {"r1"}
-    Window = 0
-    Mode = "tree"
-    Depth = 6
+    Rids = {}
+    Window = 3
+    Mode = "edges"
+    Depth = 0
+VIEW View
 CHECK_DEADLOCK FALSE
